@@ -24,6 +24,8 @@ class Engine(CoreMixin, ExprMixin, CallMixin, LibMixin, StmtMixin, ReMixin):
         self.contract = contract
         self.init_core()
         self.found = extract.find(contract.id)
+        self.renamed = None
+        self.recover_renaming()
         self.short = contract.id.split(".", 1)[1] if contract.id.startswith("fparser.") else contract.id
         self.first_line = self.found.node.lineno
         self.curline = self.first_line
@@ -192,6 +194,27 @@ class Engine(CoreMixin, ExprMixin, CallMixin, LibMixin, StmtMixin, ReMixin):
             if "snapshot:" + label not in self.after_sites_seen:
                 raise Unsupported("snapshot site %r not found in the source" % label)
         return self.obligations
+
+    def recover_renaming(self):
+        """rename recovery: when the function differs from the source recorded with the baseline only by a consistent
+        renaming of its local names, the sidecar (which names locals in invariants and local postconditions) is applied to
+        the function with the old names put back; the body verified is the current one up to that renaming"""
+        import ast as _ast
+        base = _baseline_sources().get(self.contract.id.split("@")[0])
+        if not base:
+            return
+        try:
+            old = _ast.parse(base).body[0]
+        except (SyntaxError, IndexError):
+            return
+        if extract.normalised_source(self.found.node) == base:
+            return
+        m = extract.alpha_renaming(self.found.node, old)
+        if m:
+            node = extract.rename_locals(self.found.node, m)
+            _ast.copy_location(node, self.found.node)
+            self.found.node = node
+            self.renamed = m
 
     def lemma_obligations(self):
         """generic lemmas whose instances were assumed during execution are proved here, once"""
@@ -370,6 +393,22 @@ class Engine(CoreMixin, ExprMixin, CallMixin, LibMixin, StmtMixin, ReMixin):
             for cname, expr in con.raises[n].items():
                 g, sk = self.goal_term(expr, self.post_env(s2), s2, old=self.entry_state)
                 self.oblige(s2, g, "%s#raises.%s.%s" % (self.short, n, cname), "raises", self.curline, expr, sk)
+
+
+def _baseline_sources():
+    global _SOURCES
+    try:
+        return _SOURCES
+    except NameError:
+        pass
+    import json
+    import os
+    path = os.path.join(os.path.dirname(os.path.dirname(os.path.abspath(__file__))), "baseline", "sources.json")
+    try:
+        _SOURCES = json.load(open(path))
+    except (OSError, ValueError):
+        _SOURCES = {}
+    return _SOURCES
 
 
 def generate(contract):
